@@ -210,6 +210,12 @@ def run_history(acc, kind, behaviours):
         if b == 'silent':
             frames.append(None)
             return
+        if b == 'foreign':
+            # every attempt of this transaction is answered by ANOTHER unit (the client is configured to retry then)
+            f = adu.build(framing, 2, server_reply(m), tid=state['i'] + 1)
+            frames.append(f)
+            line.push(f)
+            return
         reply = server_reply(m) if b == 'normal' else bytes([0x83, 2])
         f = adu.build(framing, 1, reply, tid=state['i'] + 1)
         frames.append(f)
@@ -217,7 +223,7 @@ def run_history(acc, kind, behaviours):
     line = clients.Line(clock, peer)
     wit = dict(part='history', client=kind, behaviours=list(behaviours))
     with clients.Patched(clock, line):
-        c = make(kind, line)
+        c = make(kind, line, retries=1, retry_on_invalid=True) if 'foreign' in behaviours else make(kind, line)
         clients.hook_logical_reads(c, line, lambda size: 'full')
         for i, b in enumerate(behaviours):
             state['i'] = i
@@ -232,7 +238,7 @@ def run_history(acc, kind, behaviours):
             waited = clock.t - t0
             acc.inc('evaluations')
             f = frames[n0] if len(frames) > n0 else None
-            if f is None or (i > 0 and behaviours[i - 1] == 'silent'):
+            if f is None or b == 'foreign' or (i > 0 and behaviours[i - 1] == 'silent'):
                 continue
             asked = sum(s for s in line.read_sizes if s)
             if asked != len(f) or None in line.read_sizes or waited >= 2.9 or not hasattr(r, 'function_code'):
@@ -241,6 +247,65 @@ def run_history(acc, kind, behaviours):
                               % (i, b, len(f), line.read_sizes, waited), kind)
                 return
     acc.add('nontrivial', (kind, 'history', tuple(behaviours)))
+
+
+SEQ_ALPHABET = [
+    dict(kind='req', fc=3, address=3, count=2),
+    dict(kind='req', fc=3, address=3, count=5),
+    dict(kind='req', fc=1, address=1, count=9),
+    dict(kind='req', fc=1, address=1, count=19),
+    dict(kind='req', fc=23, read_address=1, read_count=2, write_address=200, write_count=1, write_byte_count=2, write_registers=[7]),
+    dict(kind='req', fc=23, read_address=1, read_count=5, write_address=200, write_count=2, write_byte_count=4, write_registers=[7, 8]),
+    dict(kind='req', fc=23, read_address=1, read_count=1, write_address=200, write_count=2, write_byte_count=4, write_registers=[7, 8]),
+    dict(kind='req', fc=16, address=8, count=3, byte_count=6, registers=[1, 2, 3]),
+    dict(kind='req', fc=15, address=7, count=9, byte_count=2, bits=[True] * 9),
+    dict(kind='req', fc=6, address=6, value=0x1234),
+    dict(kind='req', fc=8, sub=0, data=[0xA537]),
+    dict(kind='req', fc=8, sub=0x0B, data=[0]),
+    dict(kind='req', fc=4, address=4, count=5),
+    dict(kind='req', fc=2, address=2, count=9),
+]
+
+
+def run_sequence(acc, kind, reqs):
+    """DIFFERENT requests, one after the other, on ONE client against a conformant peer: what the client asks of the
+    transport for a request depends on that request alone, not on what the client was used for before."""
+    framing = FRAMING2[kind]
+    clock = clients.VClock()
+    state = dict(i=0)
+    frames = []
+
+    def peer(line, data):
+        f = adu.build(framing, 1, server_reply(reqs[state['i']]), tid=state['i'] + 1)
+        frames.append(f)
+        line.push(f)
+    line = clients.Line(clock, peer)
+    wit = dict(part='sequence', client=kind, requests=[pdu.encode(m).hex() for m in reqs])
+    with clients.Patched(clock, line):
+        c = make(kind, line)
+        clients.hook_logical_reads(c, line, lambda size: 'full')
+        for i, m in enumerate(reqs):
+            state['i'] = i
+            line.read_sizes = []
+            n0 = len(frames)
+            t0 = clock.t
+            label = bind.cls_name(m).replace('Request', '')
+            try:
+                r = c.execute(bind.to_obj(dict(m, unit=1)))
+            except Exception as e:   # noqa
+                acc.violation('C14/%s/%s/sequence/raise:%s' % (label, framing, type(e).__name__), dict(wit, step=i), repr(e)[:100], kind)
+                return
+            waited = clock.t - t0
+            acc.inc('evaluations')
+            f = frames[n0] if len(frames) > n0 else b''
+            asked = sum(s for s in line.read_sizes if s)
+            left = sum(len(b) for _, b in line.rx)
+            if asked != len(f) or None in line.read_sizes or left or waited >= 2.9 or not hasattr(r, 'function_code') or (hasattr(r, 'isError') and r.isError()):
+                acc.violation('C14/%s/%s/normal/reads-in-sequence' % (label, framing), dict(wit, step=i),
+                              'request %d of the sequence (reply of %d bytes): the client asked for %r, left %d bytes unread, waited %.1f s and returned %r'
+                              % (i, len(f), line.read_sizes, left, waited, r), kind)
+                return
+    acc.add('nontrivial', (kind, 'sequence', tuple(w for w in wit['requests'])))
 
 
 def run_retry(acc, kind, m, first, reply_kind):
@@ -356,8 +421,17 @@ def shard_e2e(args):
     if not kind.endswith(':echo'):          # the scripted peers of the multi-transaction scenarios do not echo
         for hist in itertools.product(('normal', 'exception', 'silent'), repeat=3):
             run_history(acc, kind, hist)
-        for hist in (('silent', 'normal', 'exception'), ('silent', 'normal', 'normal', 'exception'), ('silent', 'silent', 'normal', 'exception')):
+        for hist in (('silent', 'normal', 'exception'), ('silent', 'normal', 'normal', 'exception'), ('silent', 'silent', 'normal', 'exception'),
+                     ('foreign', 'exception'), ('foreign', 'normal', 'exception'), ('normal', 'foreign', 'exception', 'normal'),
+                     ('foreign', 'foreign', 'exception'), ('exception', 'foreign', 'normal')):
+            if 'foreign' in hist and FRAMING2[kind] == 'tls':
+                continue                      # the TLS framing carries no unit id: there is no 'other unit' to answer
             run_history(acc, kind, hist)
+        # every ordered pair of different requests on one client (and the pair followed by the first again)
+        for a in SEQ_ALPHABET:
+            for b in SEQ_ALPHABET:
+                if a is not b:
+                    run_sequence(acc, kind, [a, b, a])
         if kind.startswith('serial-'):
             for first in (False, True):
                 run_toggle(acc, kind, first)
@@ -384,7 +458,7 @@ def run(tier, seed):
                     rule='one case = one (request, quantity) prediction compared with the real server reply and with each framer\'s ADU arithmetic, '
                          'or one end-to-end client transaction on a scripted line; non-trivial = distinct (class, reply length) pairs',
                     bounds='every quantity 1..2000 (FC1,2), 1..125 (FC3,4), 1..1968 (FC15), 1..123 (FC16), FC23 read 1..125 x write {1,2,121}, FC5/6, '
-                           'every diagnostic sub-function; RTU/ASCII/binary/TLS; end-to-end on the three serial clients, RTU-over-TCP and two subclassed-framer clients for ' + ('every quantity' if tier == 'thorough' else '~30 boundary quantities') + ', normal and exception replies; all 27 three-transaction histories over {normal, exception, silent} on one client'),
+                           'every diagnostic sub-function; RTU/ASCII/binary/TLS; end-to-end on the three serial clients, RTU-over-TCP and two subclassed-framer clients for ' + ('every quantity' if tier == 'thorough' else '~30 boundary quantities') + ', normal and exception replies; all 27 three-transaction histories over {normal, exception, silent} on one client; every ordered pair a,b (then a again) of %d different requests on one client' % len(SEQ_ALPHABET)),
                 assumptions=['the conformant server is the real decode/execute/encode path on a 2004-cell datastore, cross-checked with ref/pdu.response_size',
                              'virtual clock and scripted serial port / socket replace the OS'])
 
@@ -394,6 +468,9 @@ def replay(w):
     m = pdu.decode('req', bytes.fromhex(w['request'])) if 'request' in w else None
     if w['part'] == 'history':
         run_history(acc, w['client'], w['behaviours'])
+        return bool(acc.violations), '\n'.join('%s: %s' % (v['sig'], v['msg']) for v in acc.violations) or 'no violation'
+    if w['part'] == 'sequence':
+        run_sequence(acc, w['client'], [pdu.decode('req', bytes.fromhex(h)) for h in w['requests']])
         return bool(acc.violations), '\n'.join('%s: %s' % (v['sig'], v['msg']) for v in acc.violations) or 'no violation'
     if w['part'] == 'e2e':
         run_e2e(acc, w['client'], m, w['reply'])
